@@ -126,12 +126,12 @@ Print Assumptions accepted_header_is_the_encoding.
 
 (* why the decode error must be checked (the defect fixed in /repo, kept as basic_auth_unchecked): the decoded
    PREFIX of a malformed text was compared, so "Basic dXNlcjpwYXNz!" passed for user/pass *)
-Theorem ignoring_decode_error_admits_malformed :
+Theorem ignoring_decode_error_accepts_malformed :
   basic_auth_unchecked "user" "pass" "Basic dXNlcjpwYXNz!" = VPass /\
   exact_credentials "user" "pass" "Basic dXNlcjpwYXNz!" = false /\
   basic_auth "user" "pass" "Basic dXNlcjpwYXNz!" = VDenied401.
-Proof. exact unchecked_admits_malformed. Qed.
-Print Assumptions ignoring_decode_error_admits_malformed.
+Proof. exact unchecked_accepts_malformed. Qed.
+Print Assumptions ignoring_decode_error_accepts_malformed.
 
 (* the hypotheses above are satisfiable by non-trivial values *)
 Example guarded_example : guarded [AcceptEncoding; BasicAuth; Cors; Logging] = true /\ guarded [AcceptEncoding; Cors] = false.
